@@ -336,4 +336,26 @@ class C07c(Obligation):
         ctx.check(len(dct) == (1 if cfg['same_leaf'] else 2), 'nothing else is rewritten')
 
 
-OBLIGATIONS = [C07a, C07b, C07c, C07d]
+class C07e(Obligation):
+    id = 'C07.e'
+    title = 'inline: the lines in front of the removed statement (comments, blank lines) keep their bytes, incl. CRLF'
+    pattern = 'P1 (text lemma over split_lines-shaped symbolic lines)'
+    assumptions = ('the prefix of the removed statement is K<=3 lines of split_lines shape (each kept line ends in '
+                   '\\n, \\r\\n or \\r); parso.split_lines is a stub returning them',)
+
+    def configs(self, tier):
+        return [dict(K=k) for k in (1, 2, 3)]
+
+    def scenario(self, ctx, cfg):
+        lines = code_lines_named(ctx, cfg['K'], 4, 'prefix')
+        prefix = _join(lines)
+        ctx.patch(R, 'split_lines', lambda text, keepends=False: list(lines) if keepends else
+                  [l.rstrip('\r\n') if isinstance(l, str) else l for l in lines])
+        out = ctx.call(R._remove_indent_of_prefix, prefix)
+        ctx.check(out.exc is None, 'never raises')
+        if out.exc is None:
+            ctx.check(out.value == _join(lines[:-1]),
+                      'exactly the last (indentation) line is dropped; all other bytes, line endings included, are kept')
+
+
+OBLIGATIONS = [C07a, C07b, C07c, C07d, C07e]
